@@ -44,6 +44,9 @@ CONSTANTS Args,       \* constructor calls (strings "type:value/route")
           CanonOf,    \* call -> canonical typed argument tuple (string): what the object must carry
           PyOf,       \* canonical typed argument tuple -> its class under python == / hash
           KeyMode,    \* "exact" | "pyeq"
+          Lossy,      \* calls whose CanonOf is "REJECT" (the data cannot be represented in the canonical dtype, e.g. uint64 values
+                      \* >= 2^63, long double precision): "reject" = refused (design), "wrap" = cast silently (design mutant)
+          WrapOf,     \* call -> what a silent cast would make of it (only used by the mutant)
           MaxOps,     \* length of a behaviour
           MaxPickles,
           Label       \* name of the configuration (echoed in emitted behaviours)
@@ -92,7 +95,17 @@ Obtain(opname, a, c, cP) ==
                                 objP |-> s.obj, argsP |-> s.heap[s.obj], nliveP |-> Cardinality(DOMAIN s.table)])
        /\ UNCHANGED <<pickles, picklesP>>
 
-Construct(a) == a \in Args /\ Obtain("new", a, CanonOf[a], CanonOf[a])
+\* a constructor call that no object can carry exactly: the only correct behaviour is to raise (no state change)
+Refuse(a) == /\ Len(hist) < MaxOps
+             /\ hist' = Append(hist, [op |-> "refuse", a |-> a, k |-> 0, obj |-> 0, want |-> "REJECT", args |-> "",
+                                      nlive |-> Cardinality(DOMAIN table), existing |-> 0,
+                                      objP |-> 0, argsP |-> "", nliveP |-> Cardinality(DOMAIN tableP)])
+             /\ UNCHANGED <<heap, table, handles, pickles, nextid, heapP, tableP, handlesP, picklesP, nextidP>>
+
+Construct(a) == /\ a \in Args
+                /\ IF CanonOf[a] # "REJECT" THEN Obtain("new", a, CanonOf[a], CanonOf[a])
+                   ELSE IF Lossy = "reject" THEN Refuse(a)
+                   ELSE Obtain("new", a, WrapOf[a], WrapOf[a])
 
 Load(j) == /\ j \in DOMAIN pickles
            /\ Obtain("load", "", pickles[j], picklesP[j])
@@ -138,7 +151,7 @@ UniqueLive == \A o1 \in Live, o2 \in Live : heap[o1] = heap[o2] => o1 = o2
 
 \* the object handed out carries exactly the requested arguments (so its nutils hash,
 \* a function of the arguments it carries, is independent of the history)
-ExactArgs == Obtained => LastOp.args = LastOp.want
+ExactArgs == Obtained => (LastOp.args = LastOp.want /\ (LastOp.op = "new" => LastOp.args = CanonOf[LastOp.a]))
 
 \* structurally equal to a live object => that very object; otherwise a fresh one
 SameWhileAlive == Obtained => IF LastOp.existing # 0 THEN LastOp.obj = LastOp.existing
